@@ -21,6 +21,9 @@ impl Plugin for LinkConditionerPlugin {
 pub(super) struct LinkConditioner {
     rng: Rng,
     heap: BinaryHeap<TimedMessage>,
+
+    /// Number of messages inserted so far, used to keep insertion order for equal timestamps.
+    inserted: u64,
 }
 
 impl LinkConditioner {
@@ -53,9 +56,11 @@ impl LinkConditioner {
 
         self.heap.push(TimedMessage {
             timestamp,
+            order: self.inserted,
             channel_id,
             message,
         });
+        self.inserted += 1;
     }
 
     pub(super) fn pop(&mut self, now: Instant) -> Option<(u8, Bytes)> {
@@ -71,13 +76,19 @@ impl LinkConditioner {
 #[derive(Clone, Eq, PartialEq)]
 struct TimedMessage {
     timestamp: Instant,
+    order: u64,
     channel_id: u8,
     message: Bytes,
 }
 
 impl Ord for TimedMessage {
     fn cmp(&self, other: &TimedMessage) -> Ordering {
-        other.timestamp.cmp(&self.timestamp)
+        // Reversed to turn the max-heap into a min-heap,
+        // messages with the same timestamp keep their insertion order.
+        other
+            .timestamp
+            .cmp(&self.timestamp)
+            .then_with(|| other.order.cmp(&self.order))
     }
 }
 
